@@ -197,22 +197,38 @@ fn c15_row_and_sample_id_bytes() {
     }
 }
 
-// RowId / SampleId: CID round trip and rejection of foreign codecs, multihash codes and sizes
+// RowId: CID round trip for every valid id
 #[kani::proof]
 #[kani::unwind(18)]
 #[kani::stub(alloc::fmt::format, stub_format)]
-fn c15_row_and_sample_id_cid() {
-    let row: u16 = kani::any(); let col: u16 = kani::any(); let h: u64 = kani::any();
+fn c15_row_id_cid_roundtrip() {
+    let row: u16 = kani::any(); let h: u64 = kani::any();
     kani::assume(h != 0);
     let rid = RowId::new(row, h).unwrap();
     let cid: CidGeneric<ROW_ID_SIZE> = rid.into();
     assert!(cid.codec() == ROW_ID_CODEC && cid.hash().code() == ROW_ID_MULTIHASH_CODE && cid.hash().size() as usize == ROW_ID_SIZE);
     assert!(RowId::try_from(cid).ok() == Some(rid));
+}
+
+// SampleId: CID round trip for every valid id
+#[kani::proof]
+#[kani::unwind(18)]
+#[kani::stub(alloc::fmt::format, stub_format)]
+fn c15_sample_id_cid_roundtrip() {
+    let row: u16 = kani::any(); let col: u16 = kani::any(); let h: u64 = kani::any();
+    kani::assume(h != 0);
     let sid = SampleId::new(row, col, h).unwrap();
     let cid: CidGeneric<SAMPLE_ID_SIZE> = sid.into();
-    assert!(cid.codec() == SAMPLE_ID_CODEC && cid.hash().code() == SAMPLE_ID_MULTIHASH_CODE);
+    assert!(cid.codec() == SAMPLE_ID_CODEC && cid.hash().code() == SAMPLE_ID_MULTIHASH_CODE && cid.hash().size() as usize == SAMPLE_ID_SIZE);
     assert!(SampleId::try_from(cid).ok() == Some(sid));
-    // a CID with an arbitrary codec / multihash code / digest: accepted only with the right codec, code, size and a non-zero height
+}
+
+// a CID with an arbitrary codec / multihash code / digest is accepted as a RowId only with the right codec, code and size
+// (and then exactly when the digest decodes, i.e. the height is non-zero)
+#[kani::proof]
+#[kani::unwind(18)]
+#[kani::stub(alloc::fmt::format, stub_format)]
+fn c15_row_id_from_foreign_cid() {
     let codec: u64 = kani::any(); let code: u64 = kani::any();
     let digest: [u8; 12] = kani::any();
     let n: usize = kani::any();
@@ -222,6 +238,19 @@ fn c15_row_and_sample_id_cid() {
     let hh = u64::from_be_bytes([digest[0], digest[1], digest[2], digest[3], digest[4], digest[5], digest[6], digest[7]]);
     let as_row = RowId::try_from(cid);
     assert!(as_row.is_ok() == (codec == ROW_ID_CODEC && code == ROW_ID_MULTIHASH_CODE && n == ROW_ID_SIZE && hh != 0));
+}
+
+#[kani::proof]
+#[kani::unwind(18)]
+#[kani::stub(alloc::fmt::format, stub_format)]
+fn c15_sample_id_from_foreign_cid() {
+    let codec: u64 = kani::any(); let code: u64 = kani::any();
+    let digest: [u8; 12] = kani::any();
+    let n: usize = kani::any();
+    kani::assume(n <= 12);
+    let mh = Multihash::<12>::wrap(code, &digest[..n]).unwrap();
+    let cid = CidGeneric::<12>::new_v1(codec, mh);
+    let hh = u64::from_be_bytes([digest[0], digest[1], digest[2], digest[3], digest[4], digest[5], digest[6], digest[7]]);
     let as_sample = SampleId::try_from(cid);
     assert!(as_sample.is_ok() == (codec == SAMPLE_ID_CODEC && code == SAMPLE_ID_MULTIHASH_CODE && n == SAMPLE_ID_SIZE && hh != 0));
 }
